@@ -6,7 +6,6 @@ import (
 	"go/ast"
 	"go/token"
 	"go/types"
-	"os"
 	"path/filepath"
 	"sort"
 	"strings"
@@ -690,7 +689,7 @@ type regimeData struct {
 }
 
 func loadRegimeData(file string) (*regimeData, error) {
-	b, err := os.ReadFile(file)
+	b, err := readSubjectFile(file)
 	if err != nil {
 		return nil, err
 	}
